@@ -40,7 +40,7 @@ def run(chk):
             xc = zoo.signal(rng, N, True, kind)
             xr = zoo.signal(rng, N, False, kind)
             shifts = sorted(set([1, nfft // 4, nfft - 1, int(rng.randint(2, nfft))] + ([] if quick else [int(rng.randint(2, nfft)) for _ in range(3)])))
-            for name in zoo.CLASSES:
+            for name in zoo.CLASSES + zoo.VARIANTS:
                 ok0, base = call_guard(psd_of, name, xc.copy(), nfft, over)
                 sc = float(np.max(np.abs(base))) if ok0 and len(base) else 1.0
                 flat = bool(ok0 and len(base) and (np.max(base.real) - np.min(base.real)) < 1e-6 * sc)
